@@ -188,7 +188,7 @@ class Check:
                 continue
         skey = (f.get("site"), tuple(f.get("clauses", [])[:1]))
         self._seen_sites[skey] = self._seen_sites.get(skey, 0) + 1
-        if self._seen_sites[skey] > 2 or len(self.violations) >= 12:
+        if (self._seen_sites[skey] > 2 or len(self.violations) >= 12) and not os.environ.get("VERIF_NODEDUPE"):
             self.suppressed += 1        # same clause of the same contract already reported twice
             return
         h = hashlib.sha256(json.dumps(f, sort_keys=True, default=str).encode()).hexdigest()[:12]
